@@ -33,6 +33,7 @@ func main() {
 		jsonO  = flag.Bool("json", false, "print obligations as JSON (used by the variant sweep)")
 	)
 	extra := flag.String("extra", "", "JSON object merged into the evidence coverage (results of the variant sweep)")
+	dumpFn := flag.Bool("dump-funcs", false, "print the names of the library functions (the pinned table of inline.go) and exit")
 	genV := flag.String("gen-variants", "", "write single-edit variants of the library sources of -repo into this directory and exit")
 	sweepDir := flag.String("sweep", "", "analyse every variant directory under this directory in-process (overlay on -repo); with -p")
 	shard := flag.String("shard", "0/1", "i/n: analyse only every n-th variant starting at i")
@@ -84,6 +85,15 @@ func main() {
 	}
 	start := time.Now()
 	w, err := loadWorld(*repo, *tier)
+	if *dumpFn && err == nil {
+		for _, n := range w.libFuncNames() {
+			fmt.Println(n)
+		}
+		return
+	}
+	if err == nil {
+		prepareInlining(w)
+	}
 	if *dump != "" {
 		if err != nil {
 			fmt.Println(err)
